@@ -132,4 +132,13 @@ def selInterp (hs : Handlers) (es : List Exc) : List SelRule → Option Exc
 
 def refSelect : List SelRule := [.firstWhere false .unclaimed, .firstWhere true .notBenign, .last]
 
+/-! ### `_run_cleanups` (shape recognition, not translation)
+The model's `runCleanups` pops the *live* cleanup stack until it is empty - so cleanups registered while cleanups run are
+run too, last in first out -, runs each one through `_run_user` and remembers whether any of them was caught.  The
+translator recognises exactly that loop (up to local names and operand order) and reports anything else as `other`. -/
+inductive CleanupsShape where
+  | liveStackLifo
+  | other
+deriving DecidableEq, Repr
+
 end TTV.RunSkel
